@@ -295,6 +295,10 @@ def check(ctx):
             totals["family"] = totals.get("family", 0) + c23x.index_families(ctx, ex, cls)
             totals["transp"] += transparency_rule(ctx, comp, ex, cls, cn)
             totals["init"] += init_rule(ctx, comp, ex, cls, cn)
+            if cls == "MultiportILVTMemory":
+                from . import c23y
+
+                totals["ilvt-width"] = totals.get("ilvt-width", 0) + c23y.ilvt_entry_width(ctx, ex)
             if k == 0:
                 totals["gran"] += gran_rule(ctx, comp, ex, cls, cn)
     for k, v in totals.items():
